@@ -149,25 +149,30 @@ def _minmax(e, st, args, kw, node, is_min):
     site = e.site(st, 'call')
     if default is None:
         e.check(st, l.n >= 1, f"safety[{site}]::{'min' if is_min else 'max'}_of_nonempty", 'safety')
-    m = z3.Int(fresh_name('argm'))
-    k = z3.Int(fresh_name('mk'))
-    e.qvars.append(k)
+    # quantified over ABSOLUTE indices T of the base array (patterns free of arithmetic)
+    M = z3.Int(fresh_name('argM'))
+    T = z3.Int(fresh_name('mT'))
+    base = VList(l.elem, l.arrs, z3.IntVal(0), l.n)
+    e.qvars.append(T)
     try:
-        kk = e.num(key_term(e, st, keyf, l.at(k)))
+        kk = e.num(key_term(e, st, keyf, base.at(T)))
     finally:
         e.qvars.pop()
-    km = z3.substitute(kk, (k, m))
-    facts = [0 <= m, m < l.n,
-             z3.ForAll([k], z3.Implies(z3.And(0 <= k, k < l.n), km <= kk if is_min else km >= kk),
-                       patterns=[z3.Select(l.arrs[0], l.off + k)]),
-             z3.ForAll([k], z3.Implies(z3.And(0 <= k, k < m), km < kk if is_min else km > kk),
-                       patterns=[z3.Select(l.arrs[0], l.off + k)])]
+    km = z3.substitute(kk, (T, M))
+    lo, hi = l.off, l.off + l.n
+    facts = [lo <= M, M < hi,
+             z3.ForAll([T], z3.Implies(z3.And(lo <= T, T < hi), km <= kk if is_min else km >= kk),
+                       patterns=[z3.Select(l.arrs[0], T)]),
+             z3.ForAll([T], z3.Implies(z3.And(lo <= T, T < M), km < kk if is_min else km > kk),
+                       patterns=[z3.Select(l.arrs[0], T)])]
+    m = z3.simplify(M - l.off)
     e.last_argm = m
+    e.last_argM = M
     if default is None:
         st.assume(*facts)
-        return st, l.at(m)
+        return st, base.at(M)
     st.assume(z3.Implies(l.n >= 1, z3.And(*facts)))
-    return st, ite_val(l.n >= 1, l.at(m), default)
+    return st, ite_val(l.n >= 1, base.at(M), default)
 
 
 def bi_min(e, st, args, kw, node):
@@ -377,20 +382,21 @@ def bi_map(e, st, args, kw, node):
 
 # ---------------------------------------------------------------------------------------------- itertools
 def _first_failing(e, st, pred, l, name):
-    """c = number of leading elements satisfying pred"""
+    """c = number of leading elements satisfying pred (facts quantified over absolute indices)"""
     c = z3.Int(fresh_name(name))
-    k = z3.Int(fresh_name('tk'))
+    T = z3.Int(fresh_name('tT'))
+    base = VList(l.elem, l.arrs, z3.IntVal(0), l.n)
     sc = st.fork()
-    sc.assume(0 <= k, k < l.n)
-    e.qvars.append(k)
+    sc.assume(l.off <= T, T < l.off + l.n)
+    e.qvars.append(T)
     try:
-        p = e.truth(sc, apply_pure(e, sc, pred, [l.at(k)]))
+        p = e.truth(sc, apply_pure(e, sc, pred, [base.at(T)]))
     finally:
         e.qvars.pop()
     st.assume(0 <= c, c <= l.n,
-              z3.ForAll([k], z3.Implies(z3.And(0 <= k, k < c), p), patterns=[z3.Select(l.arrs[0], l.off + k)]),
-              z3.Implies(c < l.n, z3.Not(z3.substitute(p, (k, c)))))
-    return c, (lambda a: z3.substitute(p, (k, a)))
+              z3.ForAll([T], z3.Implies(z3.And(l.off <= T, T < l.off + c), p), patterns=[z3.Select(l.arrs[0], T)]),
+              z3.Implies(c < l.n, z3.Not(z3.substitute(p, (T, z3.simplify(l.off + c))))))
+    return c, (lambda a: z3.substitute(p, (T, z3.simplify(l.off + a))))
 
 
 def bi_itertools_takewhile(e, st, args, kw, node):
